@@ -1592,8 +1592,7 @@ class Parameter(_ParameterBase):
             refs = obj._param__private.refs
             if ref is not None:
                 obj.param._update_ref(name, ref)
-            elif name in refs and not syncing and not obj.param._TRIGGER:
-                # (param.trigger re-assigns the current value: not an override)
+            elif name in refs and not syncing:
                 obj.param._update_ref(name, None)
             if is_async or val is Undefined:
                 return
@@ -2833,7 +2832,14 @@ class Parameters:
         params = {name: param_values[name] for name in param_names}
         self_._TRIGGER = True
         try:
-            self_.update(dict(params, **triggers))
+            if self_.self is None:
+                self_.update(dict(params, **triggers))
+            else:
+                # Re-assigning the current value of a linked parameter is not
+                # an override; assignments to other parameters made by the
+                # triggered watchers are ordinary assignments.
+                with _syncing(self_.self, params):
+                    self_.update(dict(params, **triggers))
         finally:
             self_._TRIGGER = False
             self_._events += events
